@@ -61,7 +61,12 @@
 
 static int _json_object_to_fd(int fd, struct json_object *obj, int flags, const char *filename);
 
+#if defined(HAVE___THREAD)
+/* per-thread, like errno: threads working on unrelated objects must not share the buffer */
+static SPEC___THREAD char _last_err[256] = "";
+#else
 static char _last_err[256] = "";
+#endif
 
 const char *json_util_get_last_err(void)
 {
